@@ -95,6 +95,70 @@ func c12SharedCheck(i int, def bool) (string, string) {
 	return "", ""
 }
 
+// c12Hist: the provider table can change between two resolutions of one long-lived resolver (the documented Resolve /
+// watch / Resolve cycle). c12HistVersions are table overrides; a history is a sequence of versions. Oracle (differential, no
+// hand-written expectation): the k-th Resolve of the long-lived resolver gives exactly what a FRESH resolver gives on the
+// same table version - whatever the earlier resolutions did, also when they failed part-way.
+var c12HistVersions = []map[string]string{
+	{"HV": "1", "HF": "ok"},
+	{"HV": "2", "HF": "ok"},
+	{"HV": "1", "HF": "${aa:HF}"},    // the last reference fails (cycle) after the earlier ones were expanded
+	{"HV": "2", "HF": "${aa:nosuch}"}, // ... fails with a provider error
+}
+
+func c12HistResolve(r *Resolver) string {
+	var conf *Conf
+	var err error
+	nonterm, pan := vs.Guard(func() { conf, err = r.Resolve(context.Background()) })
+	switch {
+	case nonterm:
+		return "NON-TERMINATION"
+	case pan != nil:
+		return fmt.Sprintf("PANIC: %v", pan)
+	case err != nil:
+		return "error"
+	}
+	b, _ := json.Marshal(conf.ToStringMap())
+	return string(b)
+}
+
+func c12HistoryCheck(hist []int, def bool) (string, string) {
+	saved := map[string]string{}
+	for k := range c12HistVersions[0] {
+		saved[k] = c12Table[k]
+	}
+	defer func() {
+		for k, v := range saved {
+			if v == "" {
+				delete(c12Table, k)
+			} else {
+				c12Table[k] = v
+			}
+		}
+	}()
+	src := func() []map[string]any {
+		return []map[string]any{{"a": "${aa:HV}", "c": "x-${aa:HV}-y", "m": map[string]any{"n": "${aa:HV}"}, "z": "${aa:HF}"}}
+	}
+	long, err := c12Resolver(src(), def)
+	if err != nil {
+		return "history-error", err.Error()
+	}
+	for i, v := range hist {
+		for k, val := range c12HistVersions[v] {
+			c12Table[k] = val
+		}
+		got := c12HistResolve(long)
+		fresh, err := c12Resolver(src(), def)
+		if err != nil {
+			return "history-error", err.Error()
+		}
+		if want := c12HistResolve(fresh); got != want {
+			return "resolution-depends-on-earlier-resolutions", fmt.Sprintf("table versions %v (default_scheme=%v): resolution %d of a long-lived resolver gives %s, a fresh resolver on the same provider values gives %s", hist, def, i+1, got, want)
+		}
+	}
+	return "", ""
+}
+
 func c12Resolver(sources []map[string]any, defScheme bool) (*Resolver, error) {
 	root := NewProviderFactory(func(ProviderSettings) Provider {
 		return c12Prov{"root", func(uri string) (*Retrieved, error) {
@@ -631,6 +695,12 @@ func TestVerif(t *testing.T) {
 		switch c.Kind {
 		case "expand":
 			return c12Expand(c.S, c.Def)
+		case "history":
+			var h []int
+			for _, ch := range c.Key {
+				h = append(h, int(ch-'0'))
+			}
+			return c12HistoryCheck(h, c.Def)
 		case "shared":
 			var i int
 			fmt.Sscanf(c.Key, "%d", &i)
@@ -728,6 +798,26 @@ func TestVerif(t *testing.T) {
 	for _, def := range []bool{false, true} {
 		for _, k := range keys {
 			do(c12Case{Kind: "typed", Key: k, Def: def}, true)
+		}
+	}
+	// every history of <= 3 table versions
+	var hists []string
+	var recH func(cur string)
+	recH = func(cur string) {
+		if len(cur) >= 2 {
+			hists = append(hists, cur)
+		}
+		if len(cur) == 3 {
+			return
+		}
+		for v := range c12HistVersions {
+			recH(cur + fmt.Sprint(v))
+		}
+	}
+	recH("")
+	for _, def := range []bool{false, true} {
+		for _, h := range hists {
+			do(c12Case{Kind: "history", Key: h, Def: def}, true)
 		}
 	}
 	c12SharedReset()
